@@ -3,7 +3,7 @@
    the loader model puts into the environment equals the YAML entry in force
    (base, direction AND to_add_after_rounding), and is well formed. *)
 From Coq Require Import ZArith QArith Qcanon Bool String List Lia.
-From GettsimModel Require Import Num Val Ast PolicyEnv Rounding.
+From GettsimModel Require Import Num Val Ast Corr PolicyEnv Rounding.
 Import ListNotations.
 Open Scope string_scope.
 
@@ -168,3 +168,14 @@ Theorem c10_ok_for_sound Y groups dates :
     c10_holds_at (loaded_rounding Y) (yaml_rounding_section Y) d g.
 Proof. apply c10_ok_sound. Qed.
 
+
+(* diagnostic string for the harness: "date:group:function;..." *)
+Definition c10_diag_str (Y : list (string * val)) (groups : list string) (dates : list Z) : string :=
+  String.concat ";" (map (fun t => show_z (fst t) ++ ":" ++ fst (snd t) ++ ":" ++ snd (snd t))
+                         (c10_diag_for Y groups dates)).
+
+(* how many (date, group, function) specifications were compared (non-vacuity) *)
+Definition c10_count (Y : list (string * val)) (groups : list string) (dates : list Z) : nat :=
+  fold_right Nat.add 0%nat
+    (flat_map (fun d => map (fun g => match loaded_rounding Y d g with
+                                      | Ok l => length l | Err _ => 0%nat end) groups) dates).
